@@ -253,6 +253,7 @@ fn models(tier: Tier) -> Vec<Model> {
             v.extend(gen::m3(0).into_iter().step_by(41));
             v.extend(gen::m4(0).into_iter().step_by(17));
             v.extend(gen::m5(0).into_iter().step_by(7));
+            v.extend(gen::m6(0).into_iter().step_by(3));
         }
         Tier::Thorough => {
             v.extend(gen::m1(1).into_iter().step_by(11));
@@ -260,11 +261,9 @@ fn models(tier: Tier) -> Vec<Model> {
             v.extend(gen::m3(1).into_iter().step_by(13));
             v.extend(gen::m4(1).into_iter().step_by(5));
             v.extend(gen::m5(1).into_iter().step_by(2));
+            v.extend(gen::m6(1));
         }
     }
-    // literal variables are created unnamed-by-kind; proofs need integer names: keep models
-    // without literal variables only
-    v.retain(|m| m.vars.iter().all(|d| d.kind != VarKind::Lit));
     v
 }
 
@@ -610,10 +609,26 @@ fn run_one(
                         _ => known.iter().map(|(_, f)| f).collect(),
                     };
                     if !ck.rcp(&clause, &usable) {
-                        cx.violation(
-                            format!("nogood-not-derivable{}", if hints.is_some() && proof_kind == 2 { "-from-hints" } else { "" }),
-                            format!("n {id}: clause [{txt}] is not derived by reverse constraint propagation from {} usable steps (hints {hints:?})", usable.len()),
-                        );
+                        let hinted = hints.is_some() && proof_kind == 2;
+                        // Is it only that the hint list omits earlier unit nogoods (root facts)?
+                        let with_units: Vec<&Known> = known
+                            .iter()
+                            .filter(|(i, f)| {
+                                hints.as_ref().is_some_and(|h| h.contains(i)) || matches!(f, Known::Clause(ls) if ls.len() == 1)
+                            })
+                            .map(|(_, f)| f)
+                            .collect();
+                        if hinted && ck.rcp(&clause, &with_units) {
+                            cx.violation(
+                                "hint-list-omits-unit-nogood",
+                                format!("n {id}: clause [{txt}] is derived by reverse constraint propagation from the hinted steps {hints:?} only together with earlier unit nogoods that the hint list does not name"),
+                            );
+                        } else {
+                            cx.violation(
+                                format!("nogood-not-derivable{}", if hinted { "-from-hints" } else { "" }),
+                                format!("n {id}: clause [{txt}] is not derived by reverse constraint propagation from {} usable steps (hints {hints:?})", usable.len()),
+                            );
+                        }
                     }
                 }
                 if clause.is_empty() {
